@@ -294,11 +294,13 @@ class Cx:
                 continue
             seen.add(key)
             r, m, dt, s = solver.check([z3.Not(cond)] , timeout_ms=self.qtimeout)
-            rec = dict(label="%s/%s:%s" % (label, kind, str(cond)[:60]), verdict=r,
+            rec = dict(label="%s#%s:%s" % (label, kind, " ".join(str(cond).split())[:60]), verdict=r,
                        secs=round(dt, 4), path=self.npaths, side=True)
             if r == "sat":
                 rec["model"] = {k: str(v) for k, v in solver.model_dict(m).items()}
             self.records.append(rec)
+            # whatever the verdict, later obligations are about the case where the value exists
+            ENGINE.assume(cond, "after a side obligation has been decided it is assumed for what follows")
 
 
 # ---------------------------------------------------------------------------
@@ -576,6 +578,7 @@ def run_property(pid, tier, replay_path=None, only=None, nproc=None):
 
     # ---- replay every distinct counterexample on the real, unpatched code
     rres = run_pool([t[:7] for t in replay_tasks], nproc, 300) if replay_tasks else []
+    nonrepro = []
     os.makedirs(os.path.join(VERIF, "replays"), exist_ok=True)
     for t, rr in zip(replay_tasks, rres):
         _, hname, params, _, _, model, _, rec = t
@@ -597,8 +600,17 @@ def run_property(pid, tier, replay_path=None, only=None, nproc=None):
             else:
                 violations.append((path, hname, params, label, same[0]))
         else:
-            inconclusive.append("%s%s: model for %s did not reproduce on the real code (%s)" % (
-                hname, params, label, (rr.get("error") or "no violation at this label")[-300:]))
+            nonrepro.append((hname, json.dumps(params, sort_keys=True),
+                             "%s%s: model for %s did not reproduce on the real code (%s)" % (
+                hname, params, label, (rr.get("error") or "no violation at this label")[-300:])))
+    confirmed_inst = {(hn, json.dumps(pp, sort_keys=True)) for _, hn, pp, _, _ in violations} | \
+                     {(hn, json.dumps(pp, sort_keys=True)) for _, hn, pp, _ in known_hits}
+    secondary = []
+    for hn, pj, msg in nonrepro:
+        if (hn, pj) in confirmed_inst:
+            secondary.append(msg)      # consequence of a confirmed violation in the same run
+        else:
+            inconclusive.append(msg)
 
     # ---- CrossHair conditions
     xh_summary = []
@@ -678,6 +690,7 @@ def run_property(pid, tier, replay_path=None, only=None, nproc=None):
             known_findings_hit=[dict(id=k["id"], harness=hn, params=pp, label=lb)
                                 for k, hn, pp, lb in known_hits],
             inconclusive=inconclusive[:40],
+            secondary_models_not_reproduced=secondary[:20],
             checker_cmd="./check %s --tier %s" % (pid, tier),
             trusted_base=["z3 5.1.0 (QF_NRA/UFNRA decision)", "numpy object-array dispatch",
                           "stub contracts listed under assumptions", "reals for floats"],
